@@ -19,8 +19,9 @@ def registry():
     import props_equiv
     import props_sat
     import props_dyn
+    import props_cli
     props = {}
-    for mod in (props_solve, props_store, props_enc, props_fault, props_meta, props_io, props_equiv, props_sat, props_dyn):
+    for mod in (props_solve, props_store, props_enc, props_fault, props_meta, props_io, props_equiv, props_sat, props_dyn, props_cli):
         for name in dir(mod):
             c = getattr(mod, name)
             if isinstance(c, type) and issubclass(c, engine.Property) and getattr(c, "id", None):
